@@ -52,6 +52,7 @@ func runC13(r *hk.Run) {
 	h2BrokenRespPairs(r, rng, r.Scale(30, 300))
 	h1DisableMidPairs(r, rng, r.Scale(15, 150))
 	h1RetryOnErrPairs(r, rng, r.Scale(25, 250))
+	h3RejectedPairs(r, rng, r.Scale(25, 250))
 }
 
 // ---------- (a) line cases ----------
@@ -235,7 +236,9 @@ const (
 	slotRespB
 )
 
-var slotNames = []string{"Output", "RequestOutput", "ResponseOutput", "RequestHeaderOutput", "RequestBodyOutput", "ResponseHeaderOutput", "ResponseBodyOutput"}
+var slotNames = []string{"Output", "RequestOutput", "ResponseOutput", "RequestHeaderOutput", "RequestBodyOutput", "ResponseHeaderOutput", "ResponseBodyOutput", "AbandonedOutput(of an earlier EnableDumpAllTo)"}
+
+const slotAbandoned = 7
 
 type sink struct {
 	firstDone bool
@@ -432,6 +435,56 @@ type dumpCfg struct {
 	Client  *optSpec `json:"client"`
 	Request *optSpec `json:"request"`              // the options the request-level dumper must end up with (nil: no dumper)
 	ReqOps  []reqOp  `json:"request_setter_calls"` // the calls made on the request, in order
+	// ClientHist: how the client-level dump came to be: "" = SetCommonDumpOptions(o).EnableDumpAll();
+	// transport = Client.EnableDump(o); stale+transport = EnableDumpAllTo(old), DisableDumpAll(), EnableDump(o);
+	// running+transport = EnableDumpAllTo(old), EnableDump(o); stale+setters = EnableDumpAllTo(old),
+	// DisableDumpAll(), SetCommonDumpOptions(o).EnableDumpAll().  In every case o is in force and nothing may
+	// reach the abandoned writer.
+	ClientHist string `json:"client_history,omitempty"`
+}
+
+var clientHists = []string{"", "", "transport", "stale+transport", "running+transport", "stale+setters"}
+
+// applyClientHist makes the client-level calls
+func applyClientHist(c *req.Client, cfg *dumpCfg, s *sink) {
+	if cfg == nil || cfg.Client == nil {
+		return
+	}
+	old := &tagW{s: s, d: 0, id: writerID(0, slotAbandoned)}
+	o := cfg.Client.build(0, s)
+	switch cfg.ClientHist {
+	case "transport":
+		c.EnableDump(o)
+	case "stale+transport":
+		c.EnableDumpAllTo(old)
+		c.DisableDumpAll()
+		c.EnableDump(o)
+	case "running+transport":
+		c.EnableDumpAllTo(old)
+		c.EnableDump(o)
+	case "stale+setters":
+		c.EnableDumpAllTo(old)
+		c.DisableDumpAll()
+		c.SetCommonDumpOptions(o).EnableDumpAll()
+	default:
+		c.SetCommonDumpOptions(o).EnableDumpAll()
+	}
+}
+
+func coqClientOps(cfg dumpCfg) string {
+	o := cfg.Client.coq(0)
+	old := fmt.Sprintf("%d%%N", writerID(0, slotAbandoned))
+	switch cfg.ClientHist {
+	case "transport":
+		return "[CTransportEnable " + o + "]"
+	case "stale+transport":
+		return "[CEnableAllTo " + old + "; CDisableAll; CTransportEnable " + o + "]"
+	case "running+transport":
+		return "[CEnableAllTo " + old + "; CTransportEnable " + o + "]"
+	case "stale+setters":
+		return "[CEnableAllTo " + old + "; CDisableAll; CSetCommon " + o + "; CEnableAll]"
+	}
+	return "[CSetCommon " + o + "; CEnableAll]"
 }
 
 var offOps = map[string][]int{"nobody": {1, 3}, "noheader": {0, 2}, "noresponse": {2, 3}, "norequest": {0, 1}, "noreqbody": {1}, "norespbody": {3}}
@@ -565,7 +618,17 @@ func genCfg(rng *hk.Rand, r *hk.Run) dumpCfg {
 		c.setReqOps(genReqOps(rng, r))
 		r.Count("level=both")
 	}
+	c.pickHist(rng, r)
 	return c
+}
+
+func (c *dumpCfg) pickHist(rng *hk.Rand, r *hk.Run) {
+	if c.Client != nil {
+		c.ClientHist = hk.Pick(rng, clientHists)
+		if c.ClientHist != "" {
+			r.Count("client-level dump history=" + c.ClientHist)
+		}
+	}
 }
 
 func (c dumpCfg) anyOn() bool {
@@ -985,4 +1048,14 @@ func emitReqOps(r *hk.Run, cfg dumpCfg, in interface{}) {
 	}
 	r.Add(hk.Case{Coq: fmt.Sprintf("ReqOpsCase %s %s", coqReqOps(cfg.ReqOps), coqOptOpt(cfg.Request, 1)),
 		Desc: map[string]interface{}{"kind": "request-setters", "input": in}}, "ops|"+keyOf(cfg.ReqOps), len(cfg.ReqOps) > 2)
+}
+
+// emitClientOps: the client-level calls, whether the exchange ran on a clone, and the options the
+// oracle found the client-level dumper to work with
+func emitClientOps(r *hk.Run, cfg dumpCfg, cloned bool, in interface{}) {
+	if cfg.Client == nil {
+		return
+	}
+	r.Add(hk.Case{Coq: fmt.Sprintf("ClientOpsCase %s %s (Some %s)", coqClientOps(cfg), hk.CoqBool(cloned), cfg.Client.coq(0)),
+		Desc: map[string]interface{}{"kind": "client-history", "input": in}}, "cops|"+cfg.ClientHist+fmt.Sprint(cloned)+keyOf(cfg.Client), cfg.ClientHist != "")
 }
